@@ -16,7 +16,7 @@ ONCE = {3: 0x7FF0000000000000, 10: 0xFFF0000000000000, 17: 0x8000000000000000,
         24: 0x0000000000000001, 31: 0x800FFFFFFFFFFFFF, 38: 0x0000000000000000}
 
 
-def distinct_cells(T, N, salt=0):
+def distinct_cells(T, N, salt=0, nanrows=()):
     """T x N float64 array of pairwise distinct bit patterns: a counter in the
     mantissa of a normal number; every 7th cell a NaN with a distinct payload
     (quiet/signalling, both signs); +inf, -inf, -0.0, +0.0 and two denormals
@@ -27,7 +27,7 @@ def distinct_cells(T, N, salt=0):
         c = i + salt * 1000003
         if i in ONCE:
             out[i] = ONCE[i]
-        elif i % 7 == 3:
+        elif i % 7 == 5 or (i // N) in nanrows:
             quiet = 0x0008000000000000 if (i // 7) % 2 else 0
             sign = 0x8000000000000000 if (i // 14) % 2 else 0
             out[i] = sign | 0x7FF0000000000000 | quiet | ((c + 1) << 8)
@@ -97,32 +97,46 @@ def work_multi(task):
     from fast_ticc import data_preparation as dp
     acc = Acc()
     (W, N, nseries) = task
+    front = (W - 1) // 2
+    back = (W - 1) - front
     for lengths in itertools.product((W, W + 1, W + 3), repeat=nseries):
         if stopped():
             break
-        series = [distinct_cells(T, N, salt=i + 1) for i, T in enumerate(lengths)]
-        keep = [u64(s).copy() for s in series]
-        case = {"kind": "multi", "W": W, "N": N, "lengths": list(lengths)}
-        acc.n += 1
-        out = dp.stack_training_data_multiple_series(list(series), W)
-        if any(not np.array_equal(u64(s), k) for s, k in zip(series, keep)):
-            acc.fail(case, "an input series was modified")
-        # reference: row-wise concatenation of the individual reference stackings
-        ref = []
-        for s in series:
-            T = s.shape[0]
-            r = np.zeros((T - W + 1, N * W))
-            for i in range(T - W + 1):
-                for j in range(W):
-                    r[i, j * N:(j + 1) * N] = s[i + j]
-            ref.append(r)
-        ref = np.vstack(ref)
-        if not isinstance(out, np.ndarray) or out.shape != ref.shape or not np.array_equal(u64(out), u64(ref)):
-            acc.fail(case, "joint stacking is not the concatenation of the individual stackings "
-                           "(a window mixes two series or rows are misplaced)")
-            continue
-        if nseries > 1:
-            acc.nontrivial += 1
+        for variant in ("plain", "nanrows"):
+            # 'nanrows': a row that is NaN on every sensor (distinct payloads) in the first and the last series
+            series = []
+            for i, T in enumerate(lengths):
+                rows = ()
+                if variant == "nanrows":
+                    rows = (min(1, T - 1),) if i == 0 else ((T - 1,) if i == nseries - 1 else ())
+                series.append(distinct_cells(T, N, salt=i + 1, nanrows=rows))
+            keep = [u64(s).copy() for s in series]
+            case = {"kind": "multi", "W": W, "N": N, "lengths": list(lengths), "variant": variant}
+            acc.n += 1
+            try:
+                out = dp.stack_training_data_multiple_series(list(series), W)
+            except Exception as e:
+                acc.fail(case, f"joint stacking raised {type(e).__name__}: {e}")
+                continue
+            if any(not np.array_equal(u64(s), k) for s, k in zip(series, keep)):
+                acc.fail(case, "an input series was modified")
+            # reference: row-wise concatenation of the individual reference stackings
+            ref = []
+            for s in series:
+                T = s.shape[0]
+                r = np.zeros((T - W + 1, N * W))
+                for i in range(T - W + 1):
+                    for j in range(W):
+                        r[i, j * N:(j + 1) * N] = s[i + j]
+                ref.append(r)
+            ref = np.vstack(ref)
+            if not isinstance(out, np.ndarray) or out.shape != ref.shape or not np.array_equal(u64(out), u64(ref)):
+                acc.fail(case, f"joint stacking ({variant}) is not the concatenation of the individual stackings: "
+                               f"shape {getattr(out, 'shape', None)} vs {ref.shape} "
+                               "(a window mixes two series, or rows are dropped or misplaced)")
+                continue
+            if nseries > 1:
+                acc.nontrivial += 1
         # split + pad restore one list per series of the original length
         stacked = [T - W + 1 for T in lengths]
         joint = list(range(100, 100 + sum(stacked)))
@@ -131,8 +145,6 @@ def work_multi(task):
         acc.n += 1
         ok = isinstance(parts, list) and len(parts) == nseries
         pos = 0
-        front = (W - 1) // 2
-        back = (W - 1) - front
         if ok:
             for p, n, T in zip(parts, stacked, lengths):
                 if list(p) != keepj[pos:pos + n]:
@@ -165,7 +177,7 @@ def run(ctx):
         "every (T,W,N) with W in 1..12, N in 1..6, T in W..W+40 (2952 triples), cells = pairwise distinct "
         "bit patterns incl. NaN payloads, inf, -0.0, denormals, compared as uint64; every tuple of 1..6 series "
         "lengths from {W,W+1,W+3} for W in " + str(list(ws)) + " x N in {1,2}: joint stacking == vstack of "
-        "individual reference stackings, split+pad round trip; int64/float32/int8 inputs by value; "
+        "individual reference stackings (also with rows that are NaN on every sensor), split+pad round trip; int64/float32/int8 inputs by value; "
         "non-trivial = W>1 and T>W (single) or >= 2 series (multi)")
 
 
